@@ -394,6 +394,12 @@ func runRollout(r *vs.Rand, i int, seed uint64, out *vs.Out, crash bool) {
 	}
 	sc := newCleanScenario(cfg, replicas, "v1", hookMode)
 	defer sc.w.close()
+	if cfg.GenerateSelector && r.Chance(50) {
+		// with selector generation the children need no labels of their own: the hook returns them without any
+		sc.w.sim.Mutate(parentGroup, cfg.parentResource(), nsOfKey(sc.key), "p1", func(o map[string]interface{}) {
+			delete(o["spec"].(map[string]interface{}), "childLabels")
+		})
+	}
 	var rounds []roundInfo
 	k := 0
 	for ; k < replicas+4; k++ {
